@@ -1,6 +1,7 @@
 package main
 
 import (
+	"strconv"
 	"bytes"
 	"crypto/ed25519"
 	"encoding/base64"
@@ -257,8 +258,56 @@ func c02NonObjects(c *mon.Ctx) {
 	}
 }
 
+// c02InvalidUTF8Names: a signed, well-formed object one of whose member names contains U+FFFD, and copies of it in which
+// a member with the invalid byte 0xFF in that place was inserted or substituted. A reader that turns invalid bytes into
+// U+FFFD takes the two names for one; the copy is another object than the one that was signed. (SignJSON given such
+// bytes itself: an error, or something that verifies.)
+func c02InvalidUTF8Names(c *mon.Ctx) {
+	if c.Shard != 0 {
+		return
+	}
+	id := gen.NewIdentity(c.RandShared("utf8-signer"), "origin.example", "ed25519:1")
+	for _, name := range []string{"amount\uFFFD", "\uFFFD", "a\uFFFDb\uFFFD"} {
+		c.Case("sign-verify:invalid-utf8-lookalike-name", map[string]any{"name": name}, func() {
+			c.Nontrivial("utf8-lookalike|" + name)
+			signed, err := gmsl.SignJSON(id.Server, gmsl.KeyID(id.KeyID), id.Priv, []byte(`{"`+name+`":1,"other":true}`))
+			if err != nil {
+				c.Failf("sign:refuses-valid-object", "SignJSON refuses an object with the member name %s: %v", name, err)
+				return
+			}
+			if err := gmsl.VerifyJSON(id.Server, gmsl.KeyID(id.KeyID), id.Pub, signed); err != nil {
+				c.Failf("verify:rejects-own-signature", "%v", err)
+				return
+			}
+			raw := func(n string) string { // the Go-escaped spelling above as the bytes it denotes
+				s, _ := strconv.Unquote(`"` + strings.ReplaceAll(n, "\uFFFD", "\ufffd") + `"`)
+				return s
+			}
+			canon := string(signed)
+			badName := strings.ReplaceAll(raw(name), "\ufffd", "\xff")
+			inserted := `{"` + badName + `":1000000,` + canon[1:]
+			renamed := strings.Replace(canon, `"`+raw(name)+`"`, `"`+badName+`"`, 1)
+			for kind, text := range map[string]string{"member-with-invalid-byte-inserted": inserted, "member-renamed-to-invalid-byte": renamed} {
+				c.Count("invalid_utf8_lookalike_verifications")
+				if text == canon {
+					continue
+				}
+				if err := gmsl.VerifyJSON(id.Server, gmsl.KeyID(id.KeyID), id.Pub, []byte(text)); err == nil {
+					c.Failf("verify:accepts-mutation:"+kind, "VerifyJSON accepts %q, a copy of the signed %q in which a member name carries the byte 0xFF where the signed name has U+FFFD", text, canon)
+				}
+			}
+			if out, err := gmsl.SignJSON(id.Server, gmsl.KeyID(id.KeyID), id.Priv, []byte(`{"`+badName+`":1}`)); err == nil {
+				if verr := gmsl.VerifyJSON(id.Server, gmsl.KeyID(id.KeyID), id.Pub, out); verr != nil {
+					c.Failf("sign:invalid-utf8:output-does-not-verify", "SignJSON signs an object whose member name is not UTF-8 (%q) and VerifyJSON refuses the result: %v", out, verr)
+				}
+			}
+		})
+	}
+}
+
 func runC02(c *mon.Ctx) {
 	c02NonObjects(c)
+	c02InvalidUTF8Names(c)
 	r := c.Rand("objects")
 	sc := gen.Scramble(c.Rand("scramble"))
 	n := c.Scale(1500, 400000)
